@@ -95,10 +95,12 @@ pub fn alphabet(full: bool) -> Vec<Letter> {
       &[0x21, 0x40, 0x0E, 0x11, 0x80, 0xFF, 0x06, 0x0A, 0x2A, 0x12, 0x1C, 0x05, 0x20, 0xFA, 0x3E, page, 0xCD, 0x80, 0xFF],
     ));
   }
+  // OAM DMA started and the CPU halted while it is in flight (nothing in this fragment wakes it)
+  v.push(l("dma-halt", &[0x3E, 0xC1, 0xE0, 0x46, 0x76, 0x00]));
   // routine copied to WRAM (C400) and called there: interpreter path inside a jit build
   v.push(l("wram-code", &[0x21, 0x60, 0x0E, 0x11, 0x00, 0xC4, 0x06, 0x0C, 0x2A, 0x12, 0x13, 0x05, 0x20, 0xFA, 0x21, 0x30, 0xC0, 0xCD, 0x00, 0xC4]));
   // bank switch + far call
-  for k in if full { vec![1u8, 2, 3] } else { vec![1u8, 2] } {
+  for k in vec![1u8, 2, 3] {
     v.push(l(&format!("bank-call{}", k), &[0x3E, k, 0xEA, 0x00, 0x21, 0xCD, 0x00, 0x40]));
   }
   // serial output of a register
